@@ -15,8 +15,8 @@ USES = {
  'C07': ['Chr', 'Str', 'Slice', 'StrFns', 'Chars'],
  'C08': ['Slice', 'SliceFns', 'SliceIter', 'SliceIter2'],
  'C09': ['Range', 'RangeIter'],
- 'C12': ['Str', 'ParseInt', 'ParsePrim'],
- 'C13': ['Str', 'StrFns', 'ParserA', 'ParserB', 'ParseInt'],
+ 'C12': ['Str', 'ParseInt', 'ParsePrim', 'ParseWith'],
+ 'C13': ['Str', 'StrFns', 'ParserA', 'ParserB', 'ParseInt', 'ParseWith'],
  'C14': ['Bytes', 'Bytes2', 'BytesTrim', 'StrFns', 'ParserA', 'ParserB', 'ParseInt'],
  'C16': ['Cmp', 'Cmp2', 'ProbesMisc'],
  'C18': ['StrFns', 'ParserA', 'ProbesPm'],
